@@ -94,6 +94,37 @@ CONTS = [
 PLAIN = ["a", "b", "ab", "é", "è", "日", "本", "\U0001F9E0", " ", "'", "{", "}", "#", "_", "u", "x"]
 
 
+def long_literals():
+    """literals of >= 32 source / decoded bytes (block-wise scanners, bulk emitters): an escape at the
+    block edges, directly after the bytes next to the backslash in value (']' = 0x5C ^ 1, '['),
+    multi-byte characters at the block edges, deep and long concat!"""
+    out = []
+    for L in (32, 33, 40, 65):
+        out.append(("long", S("a" * L)))
+        out.append(("long", R("b" * L, 1)))
+        for e in [r"\n", r"\\", r"\u{e9}", "\\" + LF + "  "]:
+            for p in sorted(set([0, 7, 8, 29, 30, 31, 32, L - 1])):
+                for c in ["", "]"]:
+                    body = "a" * max(0, p - len(c)) + c + e + "a" * (L - p)
+                    out.append(("long-esc", S(body)))
+        for ch in ["é", "ß", "日", "\U0001F9E0"]:
+            for p in sorted(set([0, 1, 28, 29, 30, 31, L - 1])):
+                body = "a" * p + ch + "b" * max(0, L - p - len(ch.encode()))
+                out.append(("long-mb", S(body)))
+                if p in (0, 30):
+                    out.append(("long-mb", R(body, 1)))
+                    out.append(("long-mb", C(S(body[:10]), S(body[10:]))))
+    out.append(("long-mb", S("gruße aus dem konst-parser, oka")))
+    out.append(("long-esc", S(r"[konst.parser.method.settings]\n")))
+    # deep / long concat!
+    out.append(("concat-deep", C(C(C(C(S("l1"), S("l2")), S("l3")), S("l4")), S("l5"))))
+    out.append(("concat-deep", C(S("l1"), C(S("l2"), C(S("l3"), C(S("l4"), C(S("l5"))))))))
+    out.append(("concat-deep", C(C(C(C(C(C(S("x"))))))))) 
+    out.append(("concat-long", C(*[S(chr(97 + i)) for i in range(26)])))
+    out.append(("concat-long", C(*[S("é" + chr(97 + i)) for i in range(20)])))
+    return out
+
+
 def literal_pool():
     """(class, src) of every literal observed by family c18.lit"""
     out = []
@@ -147,6 +178,7 @@ def literal_pool():
     out.append(("concat", C(C(), C(C(S("x"))), S("\\" + LF + "  y"))))
     out.append(("concat", C(S("a\\" + LF + " "), S(" b"))))
     out.append(("concat", C(S(r"\x41"), S(r"\u{1_F9E0}"), S(r"\\"), S(r"\""))))
+    out.extend(long_literals())
     seen = set()
     res = []
     for cls, src in out:
@@ -202,6 +234,13 @@ def cases():
     out.append(("concat", [[C(S(r"\n"), R("a"))], [C(R("a", 1), S(r"\x0a"))]]))
     out.append(("concat", [[C(C(S("a")), S("é"))], [C(S("é"), C(S("a"), S("")))]]))
     out.append(("concat", [[C(S("a\\" + LF + "  "), S("b")), S("b")], [C(S(""), S(""))]]))
+    # (C2) long literals and deep concat! inside branch sets (the seeded inputs are built from the literals)
+    ll = [x for x in long_literals()]
+    for i in range(0, len(ll), 9):
+        cls, lit = ll[i]
+        out.append((cls, [[lit], [S("a")]]))
+    for cls, lit in ll[-7:]:
+        out.append((cls, [[S("b"), lit], [S("l1")]]))
     # (D) multi-byte text: letters sharing lead bytes (C3 A9 / C3 A8, E6 97 A5 / E6 9C AC)
     mb = ["é", "è", "éè", "èé", "日", "本", "日本", "\U0001F9E0", "\U0001F9E1", "aé"]
     for x in mb:
